@@ -35,7 +35,6 @@ import json
 import multiprocessing as mp
 import operator
 import os
-import random
 import typing
 import warnings
 from concurrent.futures import ThreadPoolExecutor
@@ -404,7 +403,10 @@ def _worker(args):
             v = _sub(is_subhint, XC, P[sp][a], P[sp][a])
             if v != 1:
                 out["coh"].append((a, "reflexive_same_object", f"is_subhint(h, h) on the same object: {v}"))
-        _coherence(w, TypeHint, a, hints[a], ra, out)
+        try:
+            _coherence(w, TypeHint, a, hints[a], ra, out)
+        except Exception as ex:     # noqa
+            out["coh"].append((a, "observation_raises", f"observing the wrapper raises {type(ex).__name__}: {str(ex)[:120]}"))
     return out
 
 
@@ -591,15 +593,19 @@ def _rejected(rep, res, inv, label):
     return at[0] if at else None
 
 
-def _r1(rep, tier, d, rows_dir):
-    """All TLC runs; returns (meta, rows)."""
+FA_LABEL = "flags LegacyFaithful (beartype 0.23.0)"
+
+
+def _r1_rows(rep, tier, d, rows_dir):
+    """MC_Subhint.tla: the demanded relation (+ rows), the 0.23.0 flags and the spec mutants (must be rejected)."""
     muts = ["issubclass_swapped", "no_wrapper_cache"] if tier == "quick" else SPEC_MUTANTS + ["no_wrapper_cache"]
-    fa = "flags LegacyFaithful (beartype 0.23.0)"
-    with ThreadPoolExecutor(max_workers=4) as ex:
+    with ThreadPoolExecutor(max_workers=5) as ex:
         f_main = ex.submit(tlc_rows, d, "intended", tier, [], INV_A, emit_dir=rows_dir, workers=8)
         f_faith = {inv: ex.submit(tlc_rows, d, "faithful_" + inv, "quick", FAITHFUL, [inv], workers=2)
                    for inv in ("Sound", "Coh_Children")}
-        f_muts = ex.submit(lambda: [(m, tlc_rows(d, "mut_" + m, "quick", [m], INV_A, workers=3)) for m in muts])
+        half = (len(muts) + 1) // 2
+        f_muts = [ex.submit(lambda ms=ms: [(m, tlc_rows(d, "mut_" + m, "quick", [m], INV_A, workers=2)) for m in ms])
+                  for ms in (muts[:half], muts[half:]) if ms]
         res = f_main.result()
         rep.tlc(res, f"MC_Subhint {tier}, flags {{}} (the demanded relation): Reflexive, Sound, Coh_Children, "
                      f"Coh_Singleton + rows")
@@ -608,16 +614,17 @@ def _r1(rep, tier, d, rows_dir):
             rep.machinery(f"MC_Subhint ({tier}) violates {res.violated} under the demanded relation at hint index {at}: "
                           f"fix the model")
         for inv, f in f_faith.items():
-            _rejected(rep, f.result(), inv, "MC_Subhint quick, " + fa)
-        for m, r in f_muts.result():
-            if not r.violated:
-                rep.machinery(f"spec mutant {m} is not rejected by any invariant: vacuous model")
-            want = "Coh_Singleton" if m == "no_wrapper_cache" else "Sound"
-            if r.violated != want:
-                rep.note(f"spec mutant {m} rejected by {r.violated} (expected {want})")
-            rep.tlc(r, f"MC_Subhint quick, spec mutant {m}: rejected by {r.violated}")
-            rep.add("spec_mutants_killed")
-            rep.cov.setdefault("spec_mutants", []).append({"mutant": m, "rejected_by": r.violated})
+            _rejected(rep, f.result(), inv, "MC_Subhint quick, " + FA_LABEL)
+        for f in f_muts:
+            for m, r in f.result():
+                if not r.violated:
+                    rep.machinery(f"spec mutant {m} is not rejected by any invariant: vacuous model")
+                want = "Coh_Singleton" if m == "no_wrapper_cache" else "Sound"
+                if r.violated != want:
+                    rep.note(f"spec mutant {m} rejected by {r.violated} (expected {want})")
+                rep.tlc(r, f"MC_Subhint quick, spec mutant {m}: rejected by {r.violated}")
+                rep.add("spec_mutants_killed")
+                rep.cov.setdefault("spec_mutants", []).append({"mutant": m, "rejected_by": r.violated})
     meta, rows = load_rows(rows_dir)
     if any(r is None for r in rows) or len(rows) < 100:
         rep.machinery(f"rows missing: {sum(r is None for r in rows)} of {len(rows)}")
@@ -625,25 +632,33 @@ def _r1(rep, tier, d, rows_dir):
     if res.distinct != 1 + (n + 3) // 4 + 3 * n:      # Init, the chunks, and PickHint / WrapOnce / WrapAgain per hint
         rep.machinery(f"MC_Subhint explored {res.distinct} states, expected {1 + (n + 3) // 4 + 3 * n}: an action was not "
                       f"taken for every hint")
+    return meta, rows
+
+
+def _r1_laws_start(ex, d, rows):
+    """MC_SubhintLaws.tla on the matrices of the demanded relation (must hold) and of 0.23.0 (must be rejected)."""
     mi = write_matrix(d, "m_intended.json", rows, "subI", "eqI")
     mf = write_matrix(d, "m_faithful.json", rows, "subF", "eqF")
-    with ThreadPoolExecutor(max_workers=5) as ex:
-        f_i = ex.submit(tlc_laws, d, "laws_intended", mi, False, INV_B, 6)
-        f_f = {inv: ex.submit(tlc_laws, d, "laws_faithful_" + inv, mf, True, [inv], 2)
-               for inv in ("Reflexive", "TransitiveNoAny", "Transitive", "Coh_EqHash")}
-        res = f_i.result()
-        rep.tlc(res, "MC_SubhintLaws on the matrix of the demanded relation: Reflexive, Transitive (all triples), "
-                     "TransitiveNoAny, Coh_EqHash, Coh_EqMutual")
-        if res.violated:
-            at = [s_.get("ia") for _, s_ in res.error_trace][-1:]
-            rep.machinery(f"MC_SubhintLaws violates {res.violated} under the demanded relation at hint "
-                          f"{[sh(meta['hints'][i - 1]) for i in at if i]}: fix the model")
-        rej = {}
-        for inv, f in f_f.items():
-            at = _rejected(rep, f.result(), inv, "MC_SubhintLaws on the matrix of " + fa)
-            rej[inv] = sh(meta["hints"][at - 1]) if at else None
-        rep.cov["faithful_model_rejected_laws_first_at"] = rej
-    return meta, rows
+    f_i = ex.submit(tlc_laws, d, "laws_intended", mi, False, INV_B, 4)
+    f_f = {inv: ex.submit(tlc_laws, d, "laws_faithful_" + inv, mf, True, [inv], 2)
+           for inv in ("Reflexive", "TransitiveNoAny", "Transitive", "Coh_EqHash")}
+    return f_i, f_f
+
+
+def _r1_laws_finish(rep, futures, meta):
+    f_i, f_f = futures
+    res = f_i.result()
+    rep.tlc(res, "MC_SubhintLaws on the matrix of the demanded relation: Reflexive, Transitive (all triples), "
+                 "TransitiveNoAny, Coh_EqHash, Coh_EqMutual")
+    if res.violated:
+        at = [s_.get("ia") for _, s_ in res.error_trace][-1:]
+        rep.machinery(f"MC_SubhintLaws violates {res.violated} under the demanded relation at hint "
+                      f"{[sh(meta['hints'][i - 1]) for i in at if i]}: fix the model")
+    rej = {}
+    for inv, f in f_f.items():
+        at = _rejected(rep, f.result(), inv, "MC_SubhintLaws on the matrix of " + FA_LABEL)
+        rej[inv] = sh(meta["hints"][at - 1]) if at else None
+    rep.cov["faithful_model_rejected_laws_first_at"] = rej
 
 
 def _real_hint_repr(w, h):
@@ -664,17 +679,19 @@ def run(rep, tier, seed):
         "transitivity is judged for ALL hints incl. Any (the statement exempts Any only from soundness); violations through "
         "Any carry their own key",
     ]
-    with util.scratch("c19-") as d:
+    procs = 16
+    # the replay workers are forked before any thread exists; they idle until the rows are there
+    with util.scratch("c19-") as d, mp.get_context("fork").Pool(procs) as pool:
         rows_dir = os.path.join(d, "rows")
         os.makedirs(rows_dir)
-        meta, rows = _r1(rep, tier, d, rows_dir)
-        hints, objs, lcm = meta["hints"], meta["objs"], meta["lcm"]
-        n = len(hints)
-        procs = 16
+        meta, rows = _r1_rows(rep, tier, d, rows_dir)
+        n = len(meta["hints"])
         chunks = [list(range(n))[i::procs * 3] for i in range(procs * 3)]
         chunks = [c for c in chunks if c]
-        with mp.get_context("fork").Pool(procs) as pool:
+        with ThreadPoolExecutor(max_workers=5) as ex:
+            laws = _r1_laws_start(ex, d, rows)
             results = pool.map(_worker, [(rows_dir, c, seed) for c in chunks], chunksize=1)
+            _r1_laws_finish(rep, laws, meta)
         _judge(rep, tier, seed, meta, rows, results)
         _generics(rep)
 
